@@ -20,7 +20,12 @@ import (
 //   - (*Executor).ExecWithTimeout: context.WithTimeout(ctx, timeout), no CommandContext, an unbuffered channel,
 //     and the final select `case err = <-ch` / `case <-ctx.Done(): err = ctx.Err(); e.KillProcess(cmd)`.
 //   - (*Executor).KillProcess: e.killProcess(cmd, e.processChan(cmd)).
-//   - (*Executor).ExecCommand (exec_linux.go): the SysProcAttr literal with Pdeathsig, Setpgid, Foreground.
+//   - (*Executor).ExecCommand (exec_linux.go): the SysProcAttr literal with Pdeathsig, Setpgid, Foreground, and the
+//     ORDER of its statements as a small program (execCommandProgram): which `cmd` object is current (every
+//     exec.Command call makes a new one) when the SysProcAttr is assigned, under which of the conditions
+//     `sandbox != NoSandbox`, `e.usePleaseSandbox`, `shouldNamespace`.
+//   - runCommand may close the channel after the send and the timeout branch of ExecWithTimeout may receive from
+//     it once more after KillProcess; both are translated into booleans the model's controller follows.
 //
 // Anything else fails closed.
 func init() {
@@ -101,18 +106,26 @@ func init() {
 			failShape("src/process/process.go: body of KillProcess has an unrecognised shape: %s", kpub)
 		}
 		rc := bodyOf(fset, findFunc(f, "", "runCommand"))
-		if rc != `{ ch <- cmd.Wait() }` {
+		mrc := regexp.MustCompile(`^\{ ch <- cmd\.Wait\(\)( close\(ch\))? \}$`).FindStringSubmatch(rc)
+		if mrc == nil {
 			failShape("src/process/process.go: body of runCommand has an unrecognised shape: %s", rc)
 		}
+		closesChan := mrc[1] != ""
 
 		ex := bodyOf(fset, findFunc(f, "Executor", "ExecWithTimeout"))
+		recvAfterKill := false
 		for _, re := range []string{
 			`^\{ ctx, cancel := context\.WithTimeout\(ctx, timeout\) defer cancel\(\) cmd := e\.ExecCommand\(sandbox, foreground, argv\[0\], argv\[1:\]\.\.\.\) `,
 			` err := cmd\.Start\(\) if err != nil \{ return nil, nil, err \} ch := make\(chan error\) e\.registerProcess\(cmd, ch\) defer e\.removeProcess\(cmd\) go runCommand\(cmd, ch\) ` +
-				`select \{ case err = <-ch: case <-ctx\.Done\(\): err = ctx\.Err\(\) e\.KillProcess\(cmd\) \} return out\.Bytes\(\), outerr\.Bytes\(\), err \}$`,
+				`select \{ case err = <-ch: case <-ctx\.Done\(\): err = ctx\.Err\(\) e\.KillProcess\(cmd\)( <-ch)? \} return out\.Bytes\(\), outerr\.Bytes\(\), err \}$`,
 		} {
-			if !regexp.MustCompile(re).MatchString(ex) {
+			m := regexp.MustCompile(re).FindStringSubmatch(ex)
+			if m == nil {
 				failShape("src/process/process.go: ExecWithTimeout does not match %s in: %s", re, ex)
+			}
+			if len(m) > 1 && m[1] != "" {
+				// the timeout branch receives from ch once more after KillProcess returned
+				recvAfterKill = true
 			}
 		}
 		if strings.Contains(ex, "CommandContext") || strings.Contains(ex, "WaitDelay") || strings.Contains(ex, "cmd.Cancel") {
@@ -127,6 +140,11 @@ func init() {
 		}
 		if n := strings.Count(ec, "Setpgid") + strings.Count(ec, "Setsid") + strings.Count(ec, "Pgid:"); n != 1 {
 			failShape("src/process/exec_linux.go: ExecCommand mentions Setpgid/Setsid/Pgid %d times", n)
+		}
+		prog, nsExpr := execCommandProgram(fsetL, findFunc(fl, "Executor", "ExecCommand"))
+		const wantNs = `e.namespace == NamespaceAlways || ((e.namespace == NamespaceSandbox || e.usePleaseSandbox) && sandbox != NoSandbox)`
+		if nsExpr != wantNs {
+			failShape("src/process/exec_linux.go: ExecCommand: shouldNamespace is %q, the model knows %q", nsExpr, wantNs)
 		}
 		boolv := func(b bool) string {
 			if b {
@@ -143,6 +161,135 @@ func init() {
 			"Definition kill_group : bool := " + boolv(ms[1] == "-") + ".\n" +
 			"(* ExecCommand: SysProcAttr{Pdeathsig, Setpgid} *)\n" +
 			"Definition setpgid : bool := " + all[0][2] + ".\n" +
-			"Definition pdeathsig : N := " + sigNum(all[0][1]) + "%N.\n"
+			"Definition pdeathsig : N := " + sigNum(all[0][1]) + "%N.\n" +
+			"(* ExecWithTimeout, `case <-ctx.Done():` - after e.KillProcess(cmd) the branch receives from ch once more *)\n" +
+			"Definition timeout_branch_recv_after_kill : bool := " + boolv(recvAfterKill) + ".\n" +
+			"(* runCommand closes ch after sending cmd.Wait()'s result *)\n" +
+			"Definition run_command_closes_chan : bool := " + boolv(closesChan) + ".\n" +
+			"(* ExecCommand, statement by statement, as far as the identity of `cmd` and its SysProcAttr are concerned *)\n" +
+			"Inductive econd := CSandboxed (* sandbox != NoSandbox *) | CBuiltin (* e.usePleaseSandbox *) | CNamespace (* shouldNamespace *).\n" +
+			"Inductive estmt :=\n" +
+			"| ENewCmd                    (* cmd := / cmd = exec.Command(...): a fresh *exec.Cmd, SysProcAttr nil *)\n" +
+			"| ESetAttr (pg : bool)       (* cmd.SysProcAttr = &syscall.SysProcAttr{Pdeathsig, Setpgid, Foreground} *)\n" +
+			"| EModAttr                   (* cmd.SysProcAttr.<Cloneflags|UidMappings|GidMappings> (|)= ...: dereferences cmd.SysProcAttr *)\n" +
+			"| ESkip                      (* touches neither the identity of cmd nor its SysProcAttr *)\n" +
+			"| EIf (c : econd) (th el : list estmt)\n" +
+			"| EReturn.                   (* return cmd *)\n" +
+			"Definition exec_command_prog : list estmt :=\n  " + prog + ".\n"
 	}
+}
+
+// execCommandProgram translates the body of ExecCommand into a term of type `list estmt` (see the generated file) and
+// returns the expression assigned to shouldNamespace. Statements are classified by what they do to the variable cmd:
+// anything not recognised fails closed.
+func execCommandProgram(fset *token.FileSet, fd *ast.FuncDecl) (string, string) {
+	show := func(n ast.Node) string {
+		var b bytes.Buffer
+		if err := printer.Fprint(&b, fset, n); err != nil {
+			failShape("cannot print a node of ExecCommand: %v", err)
+		}
+		return strings.Join(strings.Fields(b.String()), " ")
+	}
+	nsExpr := ""
+	attrRe := regexp.MustCompile(`^&syscall\.SysProcAttr\{ Pdeathsig: syscall\.\w+, Setpgid: (true|false), Foreground: foreground, \}$`)
+	var block func(list []ast.Stmt) string
+	var stmt func(st ast.Stmt) string
+	block = func(list []ast.Stmt) string {
+		items := make([]string, len(list))
+		for i, st := range list {
+			items[i] = stmt(st)
+		}
+		return "[" + strings.Join(items, "; ") + "]"
+	}
+	onlyModAttr := func(list []ast.Stmt) {
+		for _, st := range list {
+			if stmt(st) != "EModAttr" {
+				failShape("src/process/exec_linux.go: ExecCommand: %q inside a sandbox.Network/sandbox.Mount branch is not an update of cmd.SysProcAttr.Cloneflags", show(st))
+			}
+		}
+	}
+	stmt = func(st ast.Stmt) string {
+		text := show(st)
+		switch s := st.(type) {
+		case *ast.AssignStmt:
+			if len(s.Lhs) == 0 {
+				failShape("src/process/exec_linux.go: ExecCommand: %q", text)
+			}
+			lhs := show(s.Lhs[0])
+			rhs := ""
+			if len(s.Rhs) == 1 {
+				rhs = show(s.Rhs[0])
+			}
+			switch {
+			case lhs == "shouldNamespace" && len(s.Lhs) == 1 && s.Tok == token.DEFINE && nsExpr == "":
+				nsExpr = rhs
+				return "ESkip"
+			case lhs == "cmd" && len(s.Lhs) == 1 && (s.Tok == token.DEFINE || s.Tok == token.ASSIGN) && regexp.MustCompile(`^exec\.Command\([^()]*\)$`).MatchString(rhs):
+				return "ENewCmd"
+			case lhs == "cmd.SysProcAttr" && len(s.Lhs) == 1 && s.Tok == token.ASSIGN:
+				m := attrRe.FindStringSubmatch(rhs)
+				if m == nil {
+					failShape("src/process/exec_linux.go: ExecCommand: cmd.SysProcAttr is assigned %q", rhs)
+				}
+				return "ESetAttr " + m[1]
+			case len(s.Lhs) == 1 && (lhs == "cmd.SysProcAttr.Cloneflags" || lhs == "cmd.SysProcAttr.UidMappings" || lhs == "cmd.SysProcAttr.GidMappings") && !strings.Contains(rhs, "cmd"):
+				return "EModAttr"
+			case len(s.Lhs) == 1 && lhs == "cmd.Env" && s.Tok == token.ASSIGN && strings.HasPrefix(rhs, "append(cmd.Env, ") && !strings.Contains(rhs, "SysProcAttr") && !strings.Contains(rhs, "exec."):
+				return "ESkip"
+			case !strings.Contains(lhs, "cmd") && !strings.Contains(rhs, "cmd") && func() bool {
+				for _, l := range s.Lhs {
+					if id, ok := l.(*ast.Ident); !ok || id.Name == "cmd" || id.Name == "shouldNamespace" {
+						return false
+					}
+				}
+				return true
+			}():
+				return "ESkip" // args = append(...), plz, err := os.Executable()
+			}
+			failShape("src/process/exec_linux.go: ExecCommand: assignment %q is not one the translator knows", text)
+		case *ast.IfStmt:
+			if s.Init != nil {
+				failShape("src/process/exec_linux.go: ExecCommand: if with an init statement: %q", text)
+			}
+			cond := show(s.Cond)
+			var els []ast.Stmt
+			switch e := s.Else.(type) {
+			case nil:
+			case *ast.BlockStmt:
+				els = e.List
+			default:
+				failShape("src/process/exec_linux.go: ExecCommand: else-if chain: %q", text)
+			}
+			switch cond {
+			case "sandbox != NoSandbox":
+				return "EIf CSandboxed " + block(s.Body.List) + " " + block(els)
+			case "e.usePleaseSandbox":
+				return "EIf CBuiltin " + block(s.Body.List) + " " + block(els)
+			case "shouldNamespace":
+				return "EIf CNamespace " + block(s.Body.List) + " " + block(els)
+			case "sandbox.Network", "sandbox.Mount":
+				// which namespaces: only ever updates of the flags; translated as one (unconditional) dereference
+				onlyModAttr(s.Body.List)
+				onlyModAttr(els)
+				return "EModAttr"
+			case "err != nil":
+				if len(els) == 0 && len(s.Body.List) == 1 && show(s.Body.List[0]) == "panic(err)" {
+					return "ESkip"
+				}
+			}
+			failShape("src/process/exec_linux.go: ExecCommand: if statement %q is not one the translator knows", text)
+		case *ast.ReturnStmt:
+			if text == "return cmd" {
+				return "EReturn"
+			}
+			failShape("src/process/exec_linux.go: ExecCommand returns %q", text)
+		}
+		failShape("src/process/exec_linux.go: ExecCommand: statement %q is not one the translator knows", text)
+		return ""
+	}
+	prog := block(fd.Body.List)
+	if nsExpr == "" {
+		failShape("src/process/exec_linux.go: ExecCommand does not define shouldNamespace")
+	}
+	return prog, nsExpr
 }
